@@ -1,5 +1,8 @@
 import BnpVerif.Props.C05Core
 import BnpVerif.Props.C05Laws
+import BnpVerif.Props.C05More
 /-! C05 property theorems: `C05Core` (bisimulation lazy three-store table ~ eager column table, step and program theorems,
 canonical-bytes equality, refutations of the shipped concatenate / __setattr__, the tie of the buffer abstraction to C04) and
-`C05Laws` (the model's notions pinned by standard list facts; algebraic laws). Audited theorems: `Audit/C05.lean`. -/
+`C05Laws` (the model's notions pinned by standard list facts; algebraic laws), `C05More` (untouched tables stay untouched and
+write the source bytes under every program; `Lazy.index` / `concatNew` over the C04 extractor; chunked = whole read; the size
+guard is necessary). Audited theorems: `Audit/C05.lean`. -/
